@@ -31,11 +31,14 @@ quantifies over.
 Proved here: soundness, completeness, uniqueness and termination of the morphism search;
 exactness of the automorphism list; `fold` computes the generated congruence and answers
 `None` exactly when no degree-respecting congruence contains the pair; `is_minimal` is true
-exactly when no degree-respecting congruence relates chamber 1 to another chamber.
-NOT proved (Spec clauses evaluated on every explored case, see `*_statement` below): that
-`minimal_image` is the quotient by the coarsest congruence, and cover invariance.
+exactly when no proper degree-respecting congruence exists; the partition from which
+`minimal_image` builds its quotient is the coarsest degree-respecting congruence.
+NOT proved (Spec clauses evaluated on every explored case, see `*_statement` below): that the
+numbering / `build_set` / `build_sym_using_ms` step of `minimal_image` yields the quotient
+symbol of that partition (projection is a morphism, result has no proper quotient), and cover
+invariance.
 -/
-import DSymVerif.Proofs.MorphismFuel
+import DSymVerif.Proofs.MorphismCoarsest
 import DSymVerif.Proofs.MorphismBridge
 
 namespace DSymVerif.C04
@@ -94,12 +97,18 @@ theorem morphism_complete (a b : MV) (ha : OpRange a) (hb : OpPos b) (hc : Compl
     ∃ f, morphism a b (g 1) = .ok f ∧ ∀ d, 1 ≤ d → d ≤ a.size → gv f d = g d :=
   morphism_finds a b ha hb hc hconn h1 g hg hr
 
+example := morphism_complete ex2 ex2 ex2_opRange ex2_opPos ex2_complete ex2_connected (by decide)
+  (fun d => d) ex2_idMor (fun _ h1 h2 => ⟨h1, h2⟩)
+
 /-- … even without connectivity or completeness the answer is never `None` and agrees with `g`
     on every chamber it assigned -/
 theorem morphism_complete_partial (a b : MV) (ha : OpRange a) (hb : OpPos b) (h1 : 1 ≤ a.size)
     (g : Nat → Nat) (hg : IsMor a b g) (hg0 : g 1 ≠ 0) :
     ∃ f, morphism a b (g 1) = .ok f ∧ ∀ d, gv f d ≠ 0 → gv f d = g d :=
   morphism_complete' a b ha hb h1 g hg hg0
+
+example := morphism_complete_partial ex2 ex2 ex2_opRange ex2_opPos (by decide) (fun d => d) ex2_idMor
+  (by decide)
 
 /-- `Some` exactly when a morphism with the requested base image exists … -/
 theorem morphism_some_iff (a b : MV) (ha : OpRange a) (hb : OpPos b) (hc : Complete b a.dim)
@@ -119,12 +128,18 @@ example : (∃ f, morphism ex2 ex2 1 = .ok f) :=
     ⟨fun d => d, ⟨fun _ _ _ => by simp [degreesMatch2], fun d _ _ i _ di ei h1 h2 => by rw [h1] at h2; cases h2; rfl⟩,
       fun d h1 h2 => ⟨h1, h2⟩, rfl⟩
 
+example := morphism_none_iff ex2 ex2 ex2_opRange ex2_opPos ex2_complete ex2_connected (by decide) 2
+  (by decide) (by decide)
+
 /-- a morphism of a connected source is determined by its base image -/
 theorem morphism_unique (a b : MV) (ha : OpRange a) (hb : OpPos b) (hc : Complete b a.dim)
     (hconn : Connected a) (h1 : 1 ≤ a.size) (g g' : Nat → Nat) (hg : IsMor a b g)
     (hg' : IsMor a b g') (hr : InRange a b g) (hr' : InRange a b g') (h : g 1 = g' 1) :
     ∀ d, 1 ≤ d → d ≤ a.size → g d = g' d :=
   Mor.morphism_unique a b ha hb hc hconn h1 g g' hg hg' hr hr' h
+
+example := morphism_unique ex2 ex2 ex2_opRange ex2_opPos ex2_complete ex2_connected (by decide)
+  (fun d => d) (fun d => d) ex2_idMor ex2_idMor (fun _ h1 h2 => ⟨h1, h2⟩) (fun _ h1 h2 => ⟨h1, h2⟩) rfl
 
 /-! ## 2. defect D3 (pinned function) as checked examples -/
 
@@ -195,6 +210,16 @@ theorem fold_least (s : MV) (hr : OpRange s) (p0 q : Part) (c : Nat → Nat) (d 
     (h : fold s p0 d e = .ok q) : ∀ x y, q x = q y → c x = c y :=
   Mor.fold_least s hr p0 q c d e hd1 hd2 he1 he2 hcc hc0 hcde h
 
+example : True := by
+  have hok : (fold ex2 Part.new 1 2).isOk = true := by decide
+  cases h : fold ex2 Part.new 1 2 with
+  | ok q =>
+    have := fold_least ex2 ex2_opRange Part.new q (fun _ => 0) 1 2 (by decide) (by decide)
+      (by decide) (by decide) (fun _ _ _ _ _ _ _ _ _ _ _ _ _ => rfl) (fun _ _ _ => rfl) rfl h
+    trivial
+  | err => rw [h] at hok; cases hok
+  | panic => rw [h] at hok; cases hok
+
 /-- `fold` answers `Some` exactly when some degree-respecting operation-closed partition
     contains p0 and the pair (p0 itself being one); it never panics -/
 theorem fold_some_iff (s : MV) (hr : OpRange s) (hc : Complete s s.dim) (p0 : Part)
@@ -214,6 +239,9 @@ theorem fold_some_iff (s : MV) (hr : OpRange s) (hc : Complete s s.dim) (p0 : Pa
     | err => exact (ne hres).elim
     | panic => exact (np hres).elim
 
+example := fold_some_iff ex2 ex2_opRange ex2_complete Part.new (opClosed_new ex2) (degResp_new ex2) 1 2
+  (by decide) (by decide) (by decide) (by decide)
+
 /-! ## 5. the minimality test -/
 
 /-- `is_minimal()` returns, and it is true exactly when no degree-respecting operation-closed
@@ -224,18 +252,59 @@ theorem is_minimal_iff (s : MV) (hr : OpRange s) (hc : Complete s s.dim) (h1 : 1
   obtain ⟨b, hb⟩ := isMinimal_total s hr h1
   exact ⟨b, hb, isMinimal_spec s hr hc h1 b hb⟩
 
+example := is_minimal_iff ex2 ex2_opRange ex2_complete (by decide)
 example : isMinimal ex2 = .ok false := by decide
 example : isMinimal d3 = .ok true := by decide
 
-/-! ## 6. not proved — evaluated as Spec clauses on every explored case (◐) -/
-
-/-- in a connected symbol a degree-respecting congruence that is trivial at chamber 1 is trivial
-    everywhere, so `is_minimal` decides "number of classes of the coarsest congruence = size" -/
-def is_minimal_global_statement : Prop :=
-  ∀ s : MV, OpRange s → Complete s s.dim → Invol s → Connected s → 1 ≤ s.size →
-    (isMinimal s = .ok true ↔
+/-- … and, for a connected symbol with involutive operations, exactly when EVERY degree-respecting
+    congruence is trivial (the coarsest one has as many classes as there are chambers: no proper
+    quotient exists) -/
+theorem is_minimal_iff_no_proper_quotient (s : MV) (hr : OpRange s) (hc : Complete s s.dim)
+    (hinv : Invol s) (hconn : Connected s) (h1 : 1 ≤ s.size) :
+    isMinimal s = .ok true ↔
       ∀ c : Nat → Nat, OpClosed s c → DegResp s c →
-        ∀ x y, 1 ≤ x → x ≤ s.size → 1 ≤ y → y ≤ s.size → c x = c y → x = y)
+        ∀ x y, 1 ≤ x → x ≤ s.size → 1 ≤ y → y ≤ s.size → c x = c y → x = y := by
+  obtain ⟨b, hb, hiff⟩ := is_minimal_iff s hr hc h1
+  constructor
+  · intro h c hcc hcd x y hx1 hx2 hy1 hy2 hxy
+    rw [hb] at h
+    cases h
+    have hno := hiff.1 rfl
+    apply cong_trivial_of_class_one s hr hc hinv hconn c hcc ?_ x y ⟨hx1, hx2⟩ ⟨hy1, hy2⟩ hxy
+    intro d hd hcd1
+    by_cases hd1 : d = 1
+    · exact hd1
+    · exact (hno ⟨d, c, by have := hd.1; omega, hd.2, hcc, hcd, hcd1⟩).elim
+  · intro h
+    have : b = true := hiff.2 (by
+      rintro ⟨d, c, hd1, hd2, hcc, hcd, h1d⟩
+      have := h c hcc hcd 1 d (Nat.le_refl 1) h1 (by omega) hd2 h1d
+      omega)
+    rw [hb, this]
+
+example := is_minimal_iff_no_proper_quotient ex2 ex2_opRange ex2_complete ex2_invol ex2_connected (by decide)
+
+/-! ## 6. the partition behind `minimal_image` -/
+
+/-- the partition from which `minimal_image` builds its quotient,
+    `(2..=size).fold(Partition::new(), |p, d| ds.fold(&p, 1, d).unwrap_or(p))`, is computed without
+    panic and is the COARSEST degree-respecting congruence of a connected symbol: it is a
+    degree-respecting congruence and contains every other one.  (Its classes are the chambers of
+    the minimal image, so the size of the minimal image is the number of classes of the coarsest
+    degree-respecting congruence — up to the renumbering / `build_set` step, which is Spec-only.) -/
+theorem minimal_partition_coarsest (s : MV) (hr : OpRange s) (hc : Complete s s.dim)
+    (hinv : Invol s) (hconn : Connected s) (h1 : 1 ≤ s.size) :
+    ∃ q, foldAll s (s.elements.drop 1) Part.new = .ok q ∧
+      OpClosed s q.find ∧ DegResp s q.find ∧
+      ∀ c : Nat → Nat, OpClosed s c → DegResp s c →
+        ∀ x y, 1 ≤ x → x ≤ s.size → 1 ≤ y → y ≤ s.size → c x = c y → q x = q y := by
+  obtain ⟨q, hq, hcg, hmax⟩ := foldAll_coarsest s hr hc hinv hconn h1
+  exact ⟨q, hq, hcg.closed, hcg.deg, fun c hcc hcd x y hx1 hx2 hy1 hy2 hxy =>
+    hmax c ⟨hcc, hcd⟩ x y ⟨hx1, hx2⟩ ⟨hy1, hy2⟩ hxy⟩
+
+example := minimal_partition_coarsest ex2 ex2_opRange ex2_complete ex2_invol ex2_connected (by decide)
+
+/-! ## 7. not proved — evaluated as Spec clauses on every explored case (◐) -/
 
 /-- `minimal_image` is a quotient of its argument that has no proper quotient -/
 def minimal_image_statement : Prop :=
